@@ -94,8 +94,83 @@ def dump(t):
     return [chains, atoms_order, res_order, int(t._numAtoms), int(t._numResidues), bonds]
 
 
-def traj_of(t):
-    return md.Trajectory(np.zeros((1, t.n_atoms, 3), dtype=np.float32), t)
+def traj_of(t, frames=1):
+    return md.Trajectory(np.zeros((int(frames), t.n_atoms, 3), dtype=np.float32), t)
+
+
+# ---------------------------------------------------------------------------- model-free laws (deepening round)
+# Facts the Coq model takes as given about the small classes, checked directly on the live objects of every case:
+# Atom.__eq__ is equality of the six fields the model's atom_eqb compares and equal atoms hash equal; Bond ==, <, <=,
+# >, >= are the comparisons of the tuple (atom1.index, atom2.index, float(type) or 0, order or 0) (the model's
+# bond_key / key_leb, with an independent table for float(type)) and equal bonds hash equal; residues / chains with
+# equal hashed fields hash equal.  Plus two differential laws on the carriers: md.load(file, atom_indices=k) is
+# md.load(file).topology.subset(k); from_dataframe with a 2-column bond array / without bonds is from_dataframe of
+# the 4-column array with type and order erased / with no bonds.
+TYPE_VAL = {"None": 0.0, "Single": 1.0, "Amide": 1.25, "Aromatic": 1.5, "Double": 2.0, "Triple": 3.0}
+LAWS = []          # violations of the current case
+LAW_COUNTS = {}
+
+
+def law(name, ok, detail=""):
+    LAW_COUNTS[name] = LAW_COUNTS.get(name, 0) + 1
+    if not ok and len(LAWS) < 20:
+        LAWS.append("%s: %s" % (name, detail))
+
+
+def law_try(name, thunk):
+    """A differential law whose evaluation must not disturb the op it rides on."""
+    try:
+        ok, detail = thunk()
+    except Exception as e:
+        ok, detail = False, "raised %s: %s" % (type(e).__name__, str(e)[:120])
+    law(name, ok, detail)
+
+
+def atom_fields(a):
+    return (str(a.name), int(a.index), str(a.element.name), str(a.residue.name), int(a.residue.index),
+            int(a.residue.chain.index))
+
+
+def bond_tuple(b):
+    return (int(b.atom1.index), int(b.atom2.index), TYPE_VAL[repr(b.type)], 0 if b.order is None else int(b.order))
+
+
+def check_small_classes(tops):
+    atoms = [a for t in tops for a in t._atoms][:36]
+    for a in atoms:
+        fa = atom_fields(a)
+        for b in atoms:
+            e = bool(a == b)
+            law("atom_eq_is_six_fields", e == (fa == atom_fields(b)), "%r %r -> %s" % (fa, atom_fields(b), e))
+            if e:
+                law("atom_eq_implies_hash", hash(a) == hash(b), "%r" % (fa,))
+    bonds = [b for t in tops for b in t._bonds][:24]
+    for x in bonds:
+        tx = bond_tuple(x)
+        for y in bonds:
+            ty = bond_tuple(y)
+            got = (bool(x == y), bool(x != y), bool(x < y), bool(x <= y), bool(x > y), bool(x >= y))
+            want = (tx == ty, tx != ty, tx < ty, tx <= ty, tx > ty, tx >= ty)
+            law("bond_comparisons_are_tuple_comparisons", got == want, "%r %r -> %r" % (tx, ty, got))
+            if got[0]:
+                law("bond_eq_implies_hash", hash(x) == hash(y), "%r" % (tx,))
+    for t in tops:
+        bs = list(t._bonds)
+        law("sorted_bonds_by_tuple", [bond_tuple(b) for b in sorted(bs)] == sorted(bond_tuple(b) for b in bs), "")
+    res = [r for t in tops for r in t._residues][:30]
+    for r in res:
+        for q in res:
+            if (r.name, r.index, r.resSeq, r.segment_id) == (q.name, q.index, q.resSeq, q.segment_id):
+                law("residue_fields_imply_hash", hash(r) == hash(q), "%s" % (r,))
+    chs = [c for t in tops for c in t._chains][:20]
+    for c in chs:
+        for d in chs:
+            if c.index == d.index:
+                law("chain_index_implies_hash", hash(c) == hash(d), "%s" % (c.index,))
+
+
+def every_other(n):
+    return [i for i in range(n) if i % 2 == 0]
 
 
 def apply(tops, op, tmp):
@@ -167,6 +242,13 @@ def apply(tops, op, tmp):
         new = md.Topology.from_dataframe(atoms, bonds)
         if first is not None:
             new = md.Topology.from_dataframe(atoms, bonds)
+        # differential laws: the 2-column bond array and bonds=None
+        erased = bonds.copy()
+        erased[:, 2:] = 0.0
+        law_try("df_two_column_bonds", lambda: (dump(md.Topology.from_dataframe(atoms.copy(), bonds[:, :2].copy())) ==
+                                                dump(md.Topology.from_dataframe(atoms.copy(), erased)), ""))
+        law_try("df_no_bonds", lambda: (dump(md.Topology.from_dataframe(atoms.copy(), None)) ==
+                                        dump(md.Topology.from_dataframe(atoms.copy(), bonds[:0])), ""))
         tops.append(new)
     elif k == "h5":
         from mdtraj.formats import HDF5TrajectoryFile
@@ -202,8 +284,11 @@ def apply(tops, op, tmp):
                 tops.append(next(it).topology)
                 it.close()
         elif first is None:
-            traj_of(t).save_hdf5(fn)
+            traj_of(t, op[4] if len(op) > 4 else 1).save_hdf5(fn)
             tops.append(md.load(fn).topology)
+            k = every_other(t.n_atoms)
+            law_try("h5_load_atom_indices_is_subset",
+                    lambda: (dump(md.load(fn, atom_indices=k).topology) == dump(md.load(fn).topology.subset(k)), ""))
         elif mode == "setter":           # low-level: the topology attribute is stored twice, no frames
             with HDF5TrajectoryFile(fn, "w") as f:
                 f.topology = tops[first]
@@ -222,10 +307,16 @@ def apply(tops, op, tmp):
             tr0 = traj_of(tops[first])
             tr0.xyz[0, :, 0] = np.arange(tops[first].n_atoms) * 1.0
             tr0.save_pdb(fn, ter=bool(op[2]))
-        tr = traj_of(t)
-        tr.xyz[0, :, 0] = np.arange(t.n_atoms) * 1.0     # 1 nm apart: the reader's distance-based disulfide
+        frames = op[4] if len(op) > 4 else 1
+        tr = traj_of(t, frames)
+        tr.xyz[:, :, 0] = np.arange(t.n_atoms) * 1.0     # 1 nm apart: the reader's distance-based disulfide
         tr.save_pdb(fn, ter=bool(op[2]))                  # detection (not modelled) finds nothing
-        tops.append(md.load(fn).topology)
+        loaded = md.load(fn)
+        law("pdb_frames_come_back", loaded.n_frames == frames, "%d -> %d" % (frames, loaded.n_frames))
+        tops.append(loaded.topology)
+        k = every_other(t.n_atoms)
+        law_try("pdb_load_atom_indices_is_subset",
+                lambda: (dump(md.load(fn, atom_indices=k).topology) == dump(md.load(fn).topology.subset(k)), ""))
     else:
         raise SystemExit("unknown op %r" % (op,))
 
@@ -307,7 +398,12 @@ def concretise(tops, op):
         bits = op[2]
         keep = [i for i in range(t.n_atoms) if bits[i % len(bits)]]
         how = op[3]
-        if how == "atom_slice" and (t.n_atoms < 1 or not keep):
+        order = op[4] if len(op) > 4 else "asc"
+        if order == "desc":
+            keep = keep[::-1]
+        elif order == "dup":                       # unsorted, with repeated indices
+            keep = keep[1::2] + keep[::2] + keep[:2]
+        if how == "atom_slice" and (t.n_atoms < 1 or not keep or order != "asc"):
             how = "array"
         return ["subset", s, keep, how]
     if k == "join":
@@ -339,11 +435,11 @@ def concretise(tops, op):
             return None
         mode = op[3] if len(op) > 3 else "w"
         first = other(op[2] if len(op) > 2 else None, mode == "a")
-        return ["h5", s, first, mode]
+        return ["h5", s, first, mode, int(op[4]) if len(op) > 4 else 1]
     if k == "pdb":
         if not pdb_ok(t):
             return None
-        return ["pdb", s, bool(op[2]), other(op[3] if len(op) > 3 else None, False, pdb_ok)]
+        return ["pdb", s, bool(op[2]), other(op[3] if len(op) > 3 else None, False, pdb_ok), int(op[4]) if len(op) > 4 else 1]
     if k == "add_chain":
         return ["add_chain", s, op[2]]
     if k == "add_residue":
@@ -381,6 +477,7 @@ def run_case(case, tmp):
     status = []
     errors = []
     done = []
+    del LAWS[:]
     todo = [(op, False) for op in case["ops"]] + [(op, True) for op in case.get("tail", [])]
     for op, abstract in todo:
         if abstract:
@@ -403,7 +500,11 @@ def run_case(case, tmp):
     dumps = [dump(t) for t in tops]
     eqm = [[bool(a == b) for b in tops] for a in tops]
     hm = [[bool(hash(a) == hash(b)) for b in tops] for a in tops]
-    return {"ops": done, "obs": [status, dumps, eqm, hm], "errors": errors}
+    try:
+        check_small_classes(tops)
+    except Exception as e:
+        law("small_classes_raise", False, "%s: %s" % (type(e).__name__, str(e)[:120]))
+    return {"ops": done, "obs": [status, dumps, eqm, hm], "errors": errors, "laws": list(LAWS)}
 
 
 # ---------------------------------------------------------------------------- PDB bond-graph oracle
@@ -490,7 +591,7 @@ def main():
         from mdtraj.formats.pdb.pdbfile import PDBTrajectoryFile
         PDBTrajectoryFile._loadNameReplacementTables()
         info["res_repl"] = sorted(PDBTrajectoryFile._residueNameReplacements)
-    print(json.dumps({"results": out, "info": info}))
+    print(json.dumps({"results": out, "info": info, "law_counts": LAW_COUNTS}))
 
 
 if __name__ == "__main__":
